@@ -54,6 +54,8 @@ type Opt struct {
 	MemKB int
 	// Redirect is appended to the command line by a shell wrapper, e.g. ">/dev/full" or ">&-".
 	Redirect string
+	// StdinDelay > 0: the first byte of stdin arrives only after that long (a slow producer).
+	StdinDelay time.Duration
 	// StdinChunks > 1 delivers stdin in that many pieces with a pause in between (a pipe fed by a slow writer).
 	StdinChunks int
 }
@@ -79,12 +81,16 @@ func runOnce(o Opt, args []string) Res {
 	} else {
 		cmd = exec.CommandContext(ctx, bin, args...)
 	}
-	if o.StdinChunks > 1 && len(o.Stdin) >= o.StdinChunks {
+	if o.StdinDelay > 0 && o.StdinChunks < 2 {
+		o.StdinChunks = 1
+	}
+	if o.StdinChunks > 1 && len(o.Stdin) >= o.StdinChunks || o.StdinDelay > 0 {
 		pr, pw, err := os.Pipe()
 		if err == nil {
 			cmd.Stdin = pr
 			go func() {
 				defer pw.Close()
+				time.Sleep(o.StdinDelay)
 				n := len(o.Stdin) / o.StdinChunks
 				for i := 0; i < o.StdinChunks; i++ {
 					end := (i + 1) * n
